@@ -18,3 +18,11 @@ Theorem C20_text_constants_from_source :
   In (101%N :: 112%N :: 115%N :: 105%N :: 108%N :: 111%N :: 110%N :: nil) cfg_EPSILON_SYMBOLS /\ In (36%N :: nil) cfg_EPSILON_SYMBOLS.
 Proof. split; [exact (proj1 cfg_text_constants)|exact (proj1 (proj2 cfg_text_constants))]. Qed.
 Print Assumptions C20_text_constants_from_source.
+
+(* ... lifted to bodies and to the whole list of productions: reading back the printed lines gives the same productions *)
+From PFL Require Import Proofs.TextLines.
+Theorem C20_grammar_text_roundtrip : forall prods : list (sval * list gsym),
+  Forall (fun p => Forall (fun s => eps_spelling (value_of s) = false) (snd p)) prods ->
+  lines_from_text (lines_to_text prods) = prods.
+Proof. exact grammar_text_roundtrip. Qed.
+Print Assumptions C20_grammar_text_roundtrip.
